@@ -26,6 +26,9 @@ pub struct Session {
     /// Any IEEE model maps to a model of the abstraction, so `unsat` here implies `unsat` bit-precisely
     /// (pruning with it never drops a feasible path); obligations are never asked in this mode.
     pub abs: bool,
+    /// mode R pruning sessions: rem_euclid results are only bounded (0 <= r < |p|), the integer quotient is
+    /// dropped - an over-approximation, so pruning stays sound; z3 is erratic on the mixed integer/real form
+    pub rem_free: bool,
     child: Option<Child>,
     stdin: Option<ChildStdin>,
     rx: Option<Receiver<String>>,
@@ -66,6 +69,7 @@ impl Session {
             solver: solver.into(),
             float_bits,
             abs: false,
+            rem_free: false,
             child: None,
             stdin: None,
             rx: None,
@@ -247,9 +251,13 @@ impl Session {
                                 Op::RemEuclid | Op::DivEuclid => {
                                     // a = k*b + r, k integer, 0 <= r < |b|   (definitional for b != 0)
                                     let (r, k) = (format!("re{n}"), format!("ke{n}"));
+                                    if self.rem_free {
+                                        self.pending += &format!("(declare-const {r} Real)\n(declare-const {k} Int)\n(assert (=> (not (= {sb} 0.0)) (and (<= 0.0 {r}) (< {r} (ite (< {sb} 0.0) (- {sb}) {sb})))))\n");
+                                    } else {
                                     self.pending += &format!(
                                         "(declare-const {r} Real)\n(declare-const {k} Int)\n(assert (=> (not (= {sb} 0.0)) (and (= {sa} (+ (* (to_real {k}) {sb}) {r})) (<= 0.0 {r}) (< {r} (ite (< {sb} 0.0) (- {sb}) {sb})))))\n"
                                     );
+                                    }
                                     self.names.insert(n, if op == Op::RemEuclid { r } else { format!("(to_real {k})") });
                                 }
                                 Op::Rem | Op::Pow => panic!("engine S: operator {op:?} has no mode-R model"),
